@@ -961,6 +961,15 @@ def gen_c09(rng: random.Random, sid: str, thorough: bool = False) -> dict:
     if expired_case:
         evs = [(t_inj, {'op': 'conflict', 'svc': sp, 'k': 0, 'exact': True, 'ttl': rng.choice([1, 120, 1125])})]
         exact = [0]
+    elif rng.random() < 0.12:
+        # the conflicting pointer was heard long ago: past half of its TTL (stale, no longer a known answer) but not expired
+        # (PTR TTLs below 1125 s are raised to 1125 s in the cache)
+        ttl_c = rng.choice([120, 1125, 4500])
+        eff = max(ttl_c, 1125)
+        age = rng.choice([500 * eff + 1, 600 * eff, 900 * eff, 1000 * eff - 2000])
+        t0 = t + 5003 + age
+        evs = [(t + 5003, {'op': 'conflict', 'svc': sp, 'k': 0, 'exact': True, 'ttl': ttl_c})]
+        exact = [0]
     evs.append((t0, {'op': 'reg_bg', 'svc': sp, 'coop': False, 'rename': rename, 'exact': exact}))
     evs.sort(key=lambda p: (p[0], 0 if p[1]['op'] == 'conflict' and p[0] < t0 else 1))
     for (tt, st) in evs:
